@@ -191,7 +191,13 @@ func (a *App) Info(req abci.RequestInfo) abci.ResponseInfo {
 	a.mu.Lock()
 	defer a.mu.Unlock()
 	a.log("query", "Info", "call", a.height, nil, nil, "")
-	res := abci.ResponseInfo{Data: "recapp", Version: "1", AppVersion: a.opt.AppVersion, LastBlockHeight: a.height, LastBlockAppHash: a.appHash()}
+	appVersion := a.opt.AppVersion
+	if v, ok := a.kv["~appversion"]; ok {
+		if n, err := strconv.ParseUint(v, 10, 64); err == nil {
+			appVersion = n
+		}
+	}
+	res := abci.ResponseInfo{Data: "recapp", Version: "1", AppVersion: appVersion, LastBlockHeight: a.height, LastBlockAppHash: a.appHash()}
 	a.log("query", "Info", "ret", a.height, nil, res.LastBlockAppHash, "")
 	return res
 }
@@ -289,6 +295,10 @@ func (a *App) DeliverTx(req abci.RequestDeliverTx) abci.ResponseDeliverTx {
 			} else {
 				a.paramUpd.Block.MaxGas = n
 			}
+		case "appversion":
+			// the application moves to a new protocol version with this block; Info reports it once the block is committed
+			a.paramUpd.Version = &tmproto.VersionParams{AppVersion: uint64(n)}
+			a.kv["~appversion"] = kvp[1]
 		case "evage":
 			if a.paramUpd.Evidence == nil {
 				a.paramUpd.Evidence = &tmproto.EvidenceParams{MaxAgeNumBlocks: n, MaxAgeDuration: 48 * time.Hour, MaxBytes: 1048576}
